@@ -304,7 +304,8 @@ func init() {
 		Level: "exploration",
 		Rule: "memory: adversarial CBE documents (<= 64 bytes, or up to 70 KB when real payload follows the header) with an inflated length in every header kind (string/array chunk headers, identifier, media type, big integer, custom type, long ULEB128), decoded under " +
 			"MaxArraySizeBytes in {1 KiB, 64 KiB, 1 MiB}; observed: runtime.MemStats.TotalAlloc around one decode (after a warm-up decode, GOMAXPROCS=1, GC forced), process death under RLIMIT_AS 4 GiB; oracle " +
-			"TotalAlloc <= 8 MiB + 4096*len(doc) + 8*MaxArraySizeBytes. time, restated as bounded scaling: " + fmt.Sprint(len(c08Families)) + " document families (many small tokens, long strings, escapes, wide maps, nesting, long typed arrays, " +
+			"TotalAlloc <= 8 MiB + 4096*len(doc) + 8*MaxArraySizeBytes; a fifth of these cases are instead 10-60 byte CBE/CTE documents holding one decimal number (1-25 digit coefficient, exponent +-10^4..10^7) unmarshaled by ce.UnmarshalFrom{CBE,CTE}Document " +
+			"into interface{}, float32/64, big.Float (pointer, field, slice) or *apd.Decimal, same bound without the array term. time, restated as bounded scaling: " + fmt.Sprint(len(c08Families)) + " document families (many small tokens, long strings, escapes, wide maps, nesting, long typed arrays, " +
 			"many chunks, markers, comments) at sizes n, 2n, 4n, 8n; deterministic oracle: growth exponent log2(X(8n)/X(n))/3 <= 1.5 for X = TotalAlloc and X = Mallocs, and TotalAlloc(8n) <= 8 MiB + 512 (CBE) / 4096 (CTE) bytes per input byte; CPU time (min of 3, getrusage) is a second observable " +
 			"that can raise a violation only above 1.6 on documents whose smallest size needs >= 20 ms, twice. Non-trivial = measured document; distinct = distinct (family|header kind, size, limit).",
 		Assumptions: []string{"no finite run decides an asymptote: super-linearity that only shows beyond 8n (quick 32 KiB, thorough 512 KiB) is not detected", "allocation counters are deterministic for a single-goroutine decode; CPU time is noisy and only used above a wide threshold"},
@@ -356,6 +357,10 @@ func runC08(c *fw.Ctx, idx int) {
 	wcfg := configuration.New()
 	c08Measure([]byte("c0 [1 \"a\" {2=3}]"), true, wcfg)
 	c08Measure([]byte{0x81, 0, 0x9a, 1, 0x9b}, false, wcfg)
+	if idx < c08MemCases && idx%5 == 4 {
+		runC08Number(c, idx/5)
+		return
+	}
 	if idx < c08MemCases {
 		limit := []uint64{1024, 65536, 1 << 20}[idx%3]
 		cfg := configuration.New()
